@@ -856,3 +856,86 @@ def safe_same_loop_variable_twice(modules: list[Node], listed: list[Node]) -> li
     for name in dotted:
         out += [m for m in modules if m.startswith(name)]
     return out
+
+
+def safe_remainder_by_removeprefix_after_raw_test(module: Node, prefix: str) -> bool:
+    root = prefix.rstrip(".")
+    if not module.startswith(root):
+        return False
+    below = module.removeprefix(root)
+    return below == "" or below.startswith(".")
+
+
+def safe_index_error_means_equal(module: Node, other: Node) -> bool:
+    if not module.startswith(other):
+        return False
+    try:
+        return module[len(other)] == "."
+    except IndexError:
+        return True
+
+
+def unsafe_key_error_is_not_evidence(module: Node, other: Node, table: dict[str, bool]) -> bool:
+    if not module.startswith(other):
+        return False
+    try:
+        return table[module]
+    except KeyError:
+        return True
+
+
+def safe_partition_at_dotted_prefix(module: Node, other: Node) -> bool:
+    if module == other:
+        return True
+    before, separator, _ = module.partition(f"{other}.")
+    return separator != "" and before == ""
+
+
+def unsafe_partition_head_discarded(module: Node, other: Node) -> bool:
+    _, separator, rest = module.partition(f"{other}.")
+    return bool(separator) and bool(rest)
+
+
+def safe_label_after_partition_predicate(module: Node, listed: list[Node], aliases: dict[str, str]) -> str:
+    ancestor = next((c for c in listed if safe_partition_at_dotted_prefix(module, c)), None)
+    if ancestor is None:
+        return module
+    return aliases[ancestor] + module[len(ancestor):]
+
+
+def unsafe_early_stop_in_sorted_names(module: Node, listed: list[Node]) -> list[str]:
+    from bisect import bisect
+    from itertools import takewhile
+
+    ordered = sorted(listed)
+    return list(takewhile(lambda candidate: module.startswith(f"{candidate}."), reversed(ordered[: bisect(ordered, module)])))
+
+
+def safe_full_scan_of_sorted_names(module: Node, listed: list[Node]) -> list[str]:
+    from bisect import bisect
+
+    ordered = sorted(listed)
+    return [candidate for candidate in reversed(ordered[: bisect(ordered, module)]) if module.startswith(f"{candidate}.")]
+
+
+def unsafe_block_from_the_name_itself(root: Node, modules: list[Node]) -> set[str]:
+    from bisect import bisect_left
+
+    ordered = sorted(modules)
+    first = bisect_left(ordered, root)
+    behind = bisect_left(ordered, f"{root}/", lo=first)
+    return set(ordered[first:behind])
+
+
+def unsafe_block_up_to_highest_character(module: Node, modules: list[Node]) -> set[str]:
+    from bisect import bisect_left
+
+    ordered = sorted(modules)
+    return set(ordered[bisect_left(ordered, f"{module}.") : bisect_left(ordered, f"{module}{chr(0x10FFFF)}")])
+
+
+def safe_block_up_to_highest_continuation(module: Node, modules: list[Node]) -> set[str]:
+    from bisect import bisect_left
+
+    ordered = sorted(modules)
+    return set(ordered[bisect_left(ordered, f"{module}.") : bisect_left(ordered, f"{module}.{chr(0x10FFFF)}")])
